@@ -79,21 +79,27 @@ type Spec struct {
 	Chunks int     `json:"chunks,omitempty"`
 	// Pre - the same Graph object is first run once with PreTasks trivial independent tasks under limit PreMaxPar
 	// (uncontrolled, not logged); only then the history is applied, the limit is set to MaxPar and the monitored run starts.
-	PreTasks    int  `json:"pre_tasks,omitempty"`
-	PreMaxPar   int  `json:"pre_maxpar,omitempty"`
-	SerialMask  int  `json:"serial_mask,omitempty"`  // bit g set: graph g of a shared-task workload runs in serial mode
-	WrapSkip    bool `json:"wrap_skip,omitempty"`    // ErrorSkipParents is returned wrapped in another error (fmt.Errorf("...: %w", ...))
-	Percent     bool `json:"percent,omitempty"`      // graph name and task IDs contain a percent sign
-	TickerZero  bool `json:"ticker_zero,omitempty"`  // Graph.TickerDuration = 0 (no polling delay)
-	PreFail     bool `json:"pre_fail,omitempty"`     // one task of the preliminary run fails: the graph has recorded an error
-	Deadline    bool `json:"deadline,omitempty"`     // the context ends with DeadlineExceeded instead of Canceled (custom Context)
-	CtxErrs     bool `json:"ctx_errs,omitempty"`     // failing tasks return errors that wrap context.Canceled / DeadlineExceeded (their own timeouts)
-	Literal     bool `json:"literal,omitempty"`      // tasks are built as &dag.Task{ID, Fn} literals instead of dag.NewTask
-	ChunkBytes  int  `json:"chunk_bytes,omitempty"`  // filler bytes per output chunk (large outputs)
-	SortAt      int  `json:"sort_at,omitempty"`      // >0: DepthFirstSort is also called after that many construction calls
-	WriterFails bool `json:"writer_fails,omitempty"` // the output writer returns an error on every second write
-	NGraphs     int  `json:"ngraphs,omitempty"`      // >1: several graphs over the same Tasks run concurrently (eager only)
-	ViaLookup   bool `json:"via_lookup,omitempty"`   // graphs 1.. get the shared tasks through Graph.Task(id) of graph 0 instead of the caller's pointers
+	PreTasks      int  `json:"pre_tasks,omitempty"`
+	PreMaxPar     int  `json:"pre_maxpar,omitempty"`
+	SerialMask    int  `json:"serial_mask,omitempty"`     // bit g set: graph g of a shared-task workload runs in serial mode
+	WrapSkip      bool `json:"wrap_skip,omitempty"`       // ErrorSkipParents is returned wrapped in another error (fmt.Errorf("...: %w", ...))
+	Percent       bool `json:"percent,omitempty"`         // graph name and task IDs contain a percent sign
+	TickerZero    bool `json:"ticker_zero,omitempty"`     // Graph.TickerDuration = 0 (no polling delay)
+	PreFail       bool `json:"pre_fail,omitempty"`        // one task of the preliminary run fails: the graph has recorded an error
+	Deadline      bool `json:"deadline,omitempty"`        // the context ends with DeadlineExceeded instead of Canceled (custom Context)
+	CtxErrs       bool `json:"ctx_errs,omitempty"`        // failing tasks return errors that wrap context.Canceled / DeadlineExceeded (their own timeouts)
+	Literal       bool `json:"literal,omitempty"`         // tasks are built as &dag.Task{ID, Fn} literals instead of dag.NewTask
+	ChunkBytes    int  `json:"chunk_bytes,omitempty"`     // filler bytes per output chunk (large outputs)
+	SortAt        int  `json:"sort_at,omitempty"`         // >0: DepthFirstSort is also called after that many construction calls
+	WriterFails   bool `json:"writer_fails,omitempty"`    // the output writer returns an error on every second write
+	WriterDead    bool `json:"writer_dead,omitempty"`     // with WriterFails: the writer accepts nothing at all (a closed file): (0, error) on every write
+	NGraphs       int  `json:"ngraphs,omitempty"`         // >1: several graphs over the same Tasks run concurrently (eager only)
+	ViaLookup     bool `json:"via_lookup,omitempty"`      // graphs 1.. get the shared tasks through Graph.Task(id) of graph 0 instead of the caller's pointers
+	AttemptErrs   bool `json:"attempt_errs,omitempty"`    // every attempt of a task returns its own error value (wrapping the task's sentinel): the reported entry must be the final attempt's
+	NestedErrs    bool `json:"nested_errs,omitempty"`     // some tasks fail with an error that wraps a *dag.Errors (the result of a nested Run), one of them with an empty list
+	RetriesOnlyG0 bool `json:"retries_only_g0,omitempty"` // shared-task workloads: TaskRetries calls are made on graph 0 only, the other graphs use the tasks without retries
+	Colon         bool `json:"colon,omitempty"`           // task IDs with colons chosen so that "<id>:<dependency id>" of two different edges is the same text
+	QuietMask     int  `json:"quiet_mask,omitempty"`      // buffered runs: tasks (bit i) that write nothing
 }
 
 // Model - what the history is supposed to mean (from the documented API semantics).
@@ -281,7 +287,8 @@ type Trace struct {
 type ErrEntry struct {
 	Text      string `json:"text"`
 	IsSkipped bool   `json:"is_skipped"`
-	IsTask    int    `json:"is_task"` // index of the task whose sentinel it wraps, -1 none
+	IsTask    int    `json:"is_task"`           // index of the task whose sentinel it wraps, -1 none
+	Attempt   int    `json:"attempt,omitempty"` // with Spec.AttemptErrs: the attempt whose error value the entry wraps
 }
 
 // QPoint - a quiescent point seen by the controller.
@@ -336,9 +343,14 @@ type plainWriter struct {
 	buf    []byte
 	writes int
 	fails  bool
+	dead   bool
 }
 
 func (w *plainWriter) Write(p []byte) (int, error) {
+	if w.dead {
+		w.writes++ // nothing is kept: a caller that retries forever must not fill the memory
+		return 0, errWriter
+	}
 	w.buf = append(w.buf, p...)
 	w.writes++
 	if w.fails && w.writes%2 == 0 {
@@ -401,6 +413,7 @@ type runner struct {
 	cancel         context.CancelFunc
 	rng            uint64
 	sentinels      []error
+	attemptErrs    [][]error // [task][attempt-1], used with Spec.AttemptErrs
 	out            *plainWriter
 }
 
@@ -454,7 +467,7 @@ func (r *runner) taskFn(i int) getoptions.CommandFn {
 			r.taskCounters[i]++
 		}
 		attempt := int(atomic.AddInt32(&r.attempts[gi][i], 1))
-		if attempt > r.model.Retries[i]+1 && !r.model.DefErr && !r.model.Cycle && !r.spec.PreFail {
+		if attempt > RetriesFor(r.spec, r.model, gi, i)+1 && !r.model.DefErr && !r.model.Cycle && !r.spec.PreFail {
 			// more attempts than retries+1: the C13 rule is already broken on the observed prefix, the controller stops the
 			// run instead of waiting for the watchdog (a loop that never ends its attempts would cost 20 s per run)
 			atomic.StoreInt32(&r.overflow, 1)
@@ -491,7 +504,7 @@ func (r *runner) taskFn(i int) getoptions.CommandFn {
 			<-pt.ch
 		}
 		// (4) output
-		if r.spec.Buffer {
+		if r.spec.Buffer && r.spec.QuietMask&(1<<uint(i)) == 0 {
 			n := r.spec.Chunks
 			if n == 0 {
 				n = 3
@@ -523,6 +536,9 @@ func (r *runner) taskFn(i int) getoptions.CommandFn {
 		}
 		switch out {
 		case ERR:
+			if r.spec.AttemptErrs && attempt <= len(r.attemptErrs[i]) {
+				return r.attemptErrs[i][attempt-1]
+			}
 			return r.sentinels[i]
 		case SKIPPARENTS:
 			if r.spec.WrapSkip {
@@ -572,6 +588,10 @@ func (r *runner) build(gi int, tasks []*dag.Task) *dag.Graph {
 		case "depnil":
 			g.TaskDependsOn(tasks[c.A], nil)
 		case "retries":
+			if r.spec.RetriesOnlyG0 && gi > 0 {
+				g.AddTask(tasks[c.A]) // the call adds the task when it is not known yet: keep that part
+				break
+			}
 			g.TaskRetries(tasks[c.A], c.R)
 		case "dep":
 			var deps []*dag.Task
@@ -603,7 +623,7 @@ func Execute(spec *Spec) *Trace {
 	if ng < 1 {
 		ng = 1
 	}
-	r := &runner{spec: spec, model: BuildModel(spec.N, spec.Hist), rng: spec.PSeed*2654435761 + 12345, out: &plainWriter{fails: spec.WriterFails}}
+	r := &runner{spec: spec, model: BuildModel(spec.N, spec.Hist), rng: spec.PSeed*2654435761 + 12345, out: &plainWriter{fails: spec.WriterFails, dead: spec.WriterFails && spec.WriterDead}}
 	r.cells = make([]int, spec.N)
 	r.taskCounters = make([]int, spec.N)
 	r.attempts = make([][]int32, ng)
@@ -616,8 +636,20 @@ func Execute(spec *Spec) *Trace {
 			r.sentinels = append(r.sentinels, fmt.Errorf("verif sentinel error of task t%d (own timeout): %w", i, context.DeadlineExceeded))
 		case spec.CtxErrs && i%3 == 2:
 			r.sentinels = append(r.sentinels, fmt.Errorf("verif sentinel error of task t%d (own cancel): %w", i, context.Canceled))
+		case spec.NestedErrs && i%4 == 3:
+			inner := &dag.Errors{Msg: fmt.Sprintf("inner graph of t%d", i), Errors: []error{errors.New("inner task a failed"), errors.New("inner task b failed")}}
+			if i%8 == 7 {
+				inner.Errors = nil // a nested Run that recorded nothing is still a non-nil error value
+			}
+			r.sentinels = append(r.sentinels, fmt.Errorf("verif sentinel error of task t%d (nested run): %w", i, inner))
 		default:
 			r.sentinels = append(r.sentinels, fmt.Errorf("verif sentinel error of task t%d", i))
+		}
+	}
+	r.attemptErrs = make([][]error, spec.N)
+	for i := range r.attemptErrs {
+		for a := 1; a <= 8; a++ {
+			r.attemptErrs[i] = append(r.attemptErrs[i], fmt.Errorf("attempt %d failed: %w", a, r.sentinels[i]))
 		}
 	}
 	rec := &lineRecorder{}
@@ -630,9 +662,9 @@ func Execute(spec *Spec) *Trace {
 	tasks := make([]*dag.Task, spec.N)
 	for i := range tasks {
 		if spec.Literal {
-			tasks[i] = &dag.Task{ID: dag.ID(fmt.Sprintf("t%d", i) + TaskSuffix(spec)), Fn: r.taskFn(i)}
+			tasks[i] = &dag.Task{ID: dag.ID(TaskName(spec, i)), Fn: r.taskFn(i)}
 		} else {
-			tasks[i] = dag.NewTask(fmt.Sprintf("t%d", i)+TaskSuffix(spec), r.taskFn(i))
+			tasks[i] = dag.NewTask(TaskName(spec, i), r.taskFn(i))
 		}
 	}
 	tr := &Trace{}
@@ -993,6 +1025,11 @@ func Execute(spec *Spec) *Trace {
 				for i, s := range r.sentinels {
 					if errors.Is(e, s) {
 						ee.IsTask = i
+						for a, ae := range r.attemptErrs[i] {
+							if errors.Is(e, ae) {
+								ee.Attempt = a + 1
+							}
+						}
 					}
 				}
 				tr.ErrEntries[gi] = append(tr.ErrEntries[gi], ee)
@@ -1049,6 +1086,23 @@ func (r *runner) finalExitsLocked() int {
 }
 
 var _ = bytes.NewBuffer
+
+// TaskName - ID of task i. With Colon the first four IDs are chosen so that two different edges give the same text when
+// written as "<id>:<dependency id>": t0 -> t1:t99 and t0:t1 -> t99.
+func TaskName(spec *Spec, i int) string {
+	if spec.Colon && i < 4 {
+		return []string{"t0", "t1:t99", "t0:t1", "t99"}[i] + TaskSuffix(spec)
+	}
+	return fmt.Sprintf("t%d", i) + TaskSuffix(spec)
+}
+
+// RetriesFor - retries configured for task t in graph gi.
+func RetriesFor(spec *Spec, m *Model, gi, t int) int {
+	if spec.RetriesOnlyG0 && gi > 0 {
+		return 0
+	}
+	return m.Retries[t]
+}
 
 // TaskSuffix - appended to graph names and task IDs (a percent sign must survive every message the library formats).
 func TaskSuffix(spec *Spec) string {
